@@ -323,6 +323,14 @@ func (p *c11) conservation(x *res, ctx *runner.Ctx) {
 	wit := map[string]interface{}{"adapter": adapter, "goroutines": n, "monitor": kind}
 	x.fp(true, "cons|%s|%s|%d", kind, adapter, n)
 	x.r.Counters["conservation:"+kind]++
+	// every other round of the SDK v2 cases passes cancellable / deadline contexts to every call: a call that
+	// reports a cancellation is a FAILED call and must never take effect afterwards
+	cancelling := adapter == "v2" && (ctx.Case/14)%2 == 1 && (kind == "add" || kind == "condput")
+	if cancelling {
+		adapt.CancellingContexts.Store(true)
+		defer adapt.CancellingContexts.Store(false)
+		x.r.Counters["conservation_with_cancellable_contexts"]++
+	}
 	switch kind {
 	case "add":
 		cl, _, _ := freshClient(adapter, spec)
@@ -340,7 +348,13 @@ func (p *c11) conservation(x *res, ctx *runner.Ctx) {
 		x.r.Evals += n * 5
 		g := cl.Do(adapt.Op{Kind: adapt.OpGet, Table: spec.Name, Key: key})
 		want := val.Num(fmt.Sprint(n * 5))
-		if okc != int64(n*5) || !val.Equal(g.Item["c"], want) {
+		if cancelling {
+			want = val.Num(fmt.Sprint(okc)) // exactly the calls that reported success count
+			if okc == 0 {
+				want = val.Absent()
+			}
+		}
+		if (!cancelling && okc != int64(n*5)) || !val.Equal(g.Item["c"], want) {
 			x.viol("lost-update", kind, fmt.Sprintf("[%s] %d goroutines x 5 'ADD c :1' (%d succeeded): c = %s, want %s", adapter, n, okc, g.Item["c"].Canon(), want.Canon()), wit)
 		}
 	case "condput":
@@ -366,7 +380,10 @@ func (p *c11) conservation(x *res, ctx *runner.Ctx) {
 		}
 		x.r.Evals += n
 		g := cl.Do(adapt.Op{Kind: adapt.OpGet, Table: spec.Name, Key: key})
-		if okc != 1 || failc != int64(n-1) || !val.Equal(g.Item["payload"], val.Num(fmt.Sprint(winner))) {
+		if cancelling && okc == 0 && failc < int64(n) && g.Item == nil {
+			break // every call that could have won reported a cancellation and nothing was stored: consistent
+		}
+		if okc != 1 || (!cancelling && failc != int64(n-1)) || !val.Equal(g.Item["payload"], val.Num(fmt.Sprint(winner))) {
 			x.viol("not-exactly-one-winner", kind, fmt.Sprintf("[%s] %d racing attribute_not_exists puts: %d succeeded, %d ConditionalCheckFailed, stored payload %s, last winner %d", adapter, n, okc, failc, g.Item["payload"].Canon(), winner), wit)
 		}
 	case "create":
